@@ -21,6 +21,7 @@ func genC16(r *Rng, k int) *RunSpec {
 	a.ClockBase = 1_500_000_000 + int64(r.Intn(400_000_000))
 	a.Zone = Pick(r, []int{0, 0, 3600, -18000, 19800})
 	a.ClockSkewS = int64(r.Intn(7200) - 3600)
+	a.ClockFine = r.Bool()
 	// stored objects with random member sets
 	members := []string{"content", "summary", "name", "published", "updated", "attributedTo", "url", "x-extension"}
 	val := func(m string, i int) interface{} {
@@ -90,6 +91,17 @@ func genC16(r *Rng, k int) *RunSpec {
 			}
 			os = append(os, u)
 		}
+		if r.Intn(4) == 0 {
+			// the same stored object named a second time, with other members: entries apply one after another
+			first := os[0].(J)
+			again := J{"type": first["type"], "id": first["id"]}
+			for i, m := range members {
+				if r.Intn(4) == 0 {
+					again[m] = val(m, 70+i)
+				}
+			}
+			os = append(os, again)
+		}
 		if len(os) == 1 && r.Bool() {
 			body["object"] = os[0]
 		} else {
@@ -102,7 +114,16 @@ func genC16(r *Rng, k int) *RunSpec {
 			}
 		}
 	case "Delete":
-		body["object"] = pick13(objs)
+		var os []interface{}
+		for _, idv := range pick13(objs) {
+			switch r.Intn(4) {
+			case 0: // an embedded stub instead of the IRI: the Tombstone must still describe the stored object
+				os = append(os, J{"id": idv, "type": Pick(r, []string{"Object", "Note", "Article"})})
+			default:
+				os = append(os, idv)
+			}
+		}
+		body["object"] = os
 	case "Add", "Remove":
 		pool := []string{st.Col1, st.OCol1, dupCol, rcol}
 		body["target"] = pick13(pool)
@@ -199,9 +220,22 @@ func oracleC16(c *DriveCtx, res *Result) {
 	ownedBy := func(id string) bool { _, ok := before[id]; return ok && hostOf(id) == t.Srv }
 	switch typ {
 	case "Update":
+		// entries naming the same object apply one after another: fold them into one supplied-member map per id
+		folded := map[string]map[string]interface{}{}
+		var order []string
 		for _, o := range objs {
 			om, _ := o.(map[string]interface{})
 			id := idOf(om)
+			if folded[id] == nil {
+				folded[id] = map[string]interface{}{}
+				order = append(order, id)
+			}
+			for k, v := range om {
+				folded[id][k] = v
+			}
+		}
+		for _, id := range order {
+			om := folded[id]
 			expect[id] = true
 			old := mustParseJ([]byte(before[id]))
 			got := mustParseJ([]byte(after[id]))
